@@ -73,11 +73,13 @@ def findsOut (v : View) (pat : List Atom) (m0 : MSt) (nsave : Nat) : String :=
   -- no successful execution in the grey zone (examined positions that are not candidates)
   let grey := (scanPositions v m0.start m0.stop).any fun c =>
     execOK v pat c && !decide (IsCand v m m0.start m0.stop c)
-  let hyp := decide (Hyp v pat m0.start m0.stop) && !grey
+  let hypw := decide (Hyp v pat m0.start m0.stop)
+  let hyp := hypw && !grey
   let caps := match spec with
     | [c] => fmtSpecHit v pat nsave c
     | _ => "-"
-  s!"{ans} ## spec={b01 (spec.length == 1)} caps={caps} specn={spec.length} hyp={b01 hyp}"
+  -- hyp: hypotheses of C10_finds_iff_unique_partial; hypw: those of the (false) literal statement
+  s!"{ans} ## spec={b01 (spec.length == 1)} caps={caps} specn={spec.length} hyp={b01 hyp} hypw={b01 hypw}"
 
 def patExecOut (v : View) (pat : List Atom) (cursor nsave : Nat) : String :=
   match Exec.run (Exec.ofView v) pat cursor (Array.replicate nsave 0) with
